@@ -60,7 +60,7 @@ def one(path):
 if __name__ == "__main__":
     props = sys.argv[1:] or [f"C{i:02d}" for i in range(1, 21)]
     paths = sorted(p for P in props for p in glob.glob(f"/tmp/mut/out/{P}/m*") if os.path.isdir(p))
-    with ThreadPoolExecutor(4) as ex:
+    with ThreadPoolExecutor(5) as ex:
         for r in ex.map(one, paths):
             print(r["id"], "applies" if r.get("applies") else "NOAPPLY", "clean", r.get("demo_clean_rc"), "mut", r.get("demo_mutant_rc"),
                   "base", r.get("baseline_pass"), "fired", sorted((r.get("checks_fired") or {}).keys()), flush=True)
